@@ -38,7 +38,7 @@ GRIDS = ("uniform", "rect_uniform", "quasi", "graded", "stretched")
 def cases(tier, rng):
     q = tier == "quick"
     out = []
-    n = 12 if q else 120
+    n = 10 if q else 120
     for i in range(n):
         out.append({"grid": GRIDS[i % len(GRIDS)], "n_objects": 8 if q else 9})
     return out
